@@ -15,7 +15,8 @@ Actions == {a \in [binary : BOOLEAN, dir : BOOLEAN, fork : BOOLEAN, proto : Prot
                    tunnel : BOOLEAN, confirm : BOOLEAN] : ~(a.tunnel /\ a.winnl)}
 (* the server's options (baseArgs) and its tmux situation *)
 Args == [quiet : BOOLEAN, overwrite : BOOLEAN, binary : BOOLEAN, directory : BOOLEAN, bufk : {1, 10240},
-         timeout : {0, 20}, compress : {0, 1}, stmux : BOOLEAN]
+         timeout : {0, 20}, compress : {0, 1}, stmux : BOOLEAN,
+         winsrv : BOOLEAN]      \* the trigger says the server runs on Windows ("!\n" line framing)
 (* the relay's own situation *)
 Relays == [tmux : BOOLEAN, width : {0, 80}]
 
@@ -31,10 +32,14 @@ ServerCfg(act, g) ==
      compress |-> g.compress,
      binary |-> (act.tunnel \/ (g.binary /\ act.binary)),
      proto |-> IF act.proto > 0 THEN Min(act.proto, MaxProto) ELSE 0,
-     junk |-> g.stmux, width |-> 0]
+     junk |-> g.stmux, width |-> 0,
+     newline |-> "absent"]          \* a server never sends the newline field
 
 (* relay.go handshake(): what is sent on to the client *)
-RewriteCfg(c, r) == [c EXCEPT !.junk = (@ \/ r.tmux), !.width = IF @ <= 0 /\ r.width > 0 THEN r.width ELSE @]
+(* recvConfig's default for the newline the client is told to use: Windows framing only for a  *)
+(* Windows server without a tunnel -- exactly what a directly connected client would use        *)
+RewriteCfg(c, r, a, g) == [c EXCEPT !.junk = (@ \/ r.tmux), !.width = IF @ <= 0 /\ r.width > 0 THEN r.width ELSE @,
+                                    !.newline = IF g.winsrv /\ ~a.tunnel THEN "win" ELSE "plain"]
 
 VARIABLES act, args, relay, actOut, cfgIn, cfgOut, done
 vars == <<act, args, relay, actOut, cfgIn, cfgOut, done>>
@@ -43,8 +48,11 @@ vars == <<act, args, relay, actOut, cfgIn, cfgOut, done>>
 (* no configuration is exchanged then, so these combinations are outside this module           *)
 Init == /\ act \in Actions /\ args \in Args /\ relay \in Relays
         /\ (args.directory => act.dir)
+        \* a client facing a Windows server announces the Windows newline (sendAction: remoteIsWindows);
+        \* Windows servers behind a tunnel are outside this module
+        /\ (args.winsrv => act.winnl /\ ~act.tunnel)
         /\ actOut = RewriteAct(act) /\ cfgIn = ServerCfg(RewriteAct(act), args)
-        /\ cfgOut = RewriteCfg(ServerCfg(RewriteAct(act), args), relay) /\ done = FALSE
+        /\ cfgOut = RewriteCfg(ServerCfg(RewriteAct(act), args), relay, act, args) /\ done = FALSE
 Next == ~done /\ done' = TRUE /\ UNCHANGED <<act, args, relay, actOut, cfgIn, cfgOut>>
 Spec == Init /\ [][Next]_vars
 
@@ -55,6 +63,8 @@ ProtocolClamped == /\ actOut.proto <= Min(act.proto, MaxProto) \/ (act.proto <= 
                    /\ (act.proto > 0 => cfgOut.proto <= act.proto)
 OnlyAdds == /\ \A f \in {"quiet", "overwrite", "directory", "bufk", "timeout", "compress", "binary", "proto"} : cfgOut[f] = cfgIn[f]
             /\ (cfgIn.junk => cfgOut.junk) /\ (cfgIn.width > 0 => cfgOut.width = cfgIn.width)
+(* the line framing the client is told to use is the one it would use when connected directly *)
+NewlineAsDirect == cfgOut.newline = (IF args.winsrv /\ ~act.tunnel THEN "win" ELSE "plain")
 ActOnlyNarrows == /\ (actOut.binary => act.binary) /\ actOut.dir = act.dir /\ actOut.fork = act.fork
                   /\ actOut.winnl = act.winnl /\ actOut.tunnel = act.tunnel /\ actOut.confirm = act.confirm
 
